@@ -207,3 +207,67 @@ func runSecondBlockInRound(t *rapid.T) {
 }
 
 func TestSecondBlockInRound(t *testing.T) { rapid.Check(t, runSecondBlockInRound) }
+
+// A part-set header whose root hash is empty (or too short to be a hash) can vouch for nothing: whatever is offered under it -
+// genuine parts of some block, parts without a proof, with made-up or truncated proofs, at any index - is refused, and the
+// set never completes.  (Nothing on the way refuses such a header: a signed proposal may carry it.)
+func TestPartSetHeaderWithoutRoot(t *testing.T) {
+	rapid.Check(t, func(t *rapid.T) {
+		vstat.Eval()
+		total := rapid.IntRange(1, 8).Draw(t, "total")
+		var root []byte
+		switch rapid.IntRange(0, 3).Draw(t, "rootshape") {
+		case 0:
+			root = nil
+		case 1:
+			root = []byte{}
+		default:
+			root = rapid.SliceOfN(rapid.Byte(), 1, 19).Draw(t, "shortroot")
+		}
+		rcv := types.NewPartSetFromHeader(types.PartSetHeader{Total: total, Hash: root})
+		// a genuine part set with the same number of parts to borrow parts and proofs from
+		chunk := rapid.IntRange(1, 64).Draw(t, "chunk")
+		data := rapid.SliceOfN(rapid.Byte(), (total-1)*chunk+1, total*chunk).Draw(t, "data")
+		donor := types.NewPartSetFromData(data, chunk)
+		n := rapid.IntRange(1, 12).Draw(t, "noffers")
+		for i := 0; i < n; i++ {
+			idx := rapid.IntRange(0, total-1).Draw(t, "idx")
+			src := donor.GetPart(idx % donor.Total())
+			p := &types.Part{Index: idx, Bytes: append([]byte(nil), src.Bytes...)}
+			kind := rapid.SampledFrom([]string{"genuine-proof", "no-aunts", "one-made-up-aunt", "truncated-proof", "extended-proof", "random-bytes"}).Draw(t, "offer")
+			aunts := append([][]byte(nil), src.Proof.Aunts...)
+			switch kind {
+			case "no-aunts":
+				aunts = nil
+			case "one-made-up-aunt":
+				aunts = [][]byte{rapid.SliceOfN(rapid.Byte(), 20, 32).Draw(t, "aunt")}
+			case "truncated-proof":
+				if len(aunts) > 0 {
+					aunts = aunts[:len(aunts)-1]
+				}
+			case "extended-proof":
+				aunts = append(aunts, rapid.SliceOfN(rapid.Byte(), 20, 32).Draw(t, "aunt"))
+			case "random-bytes":
+				p.Bytes = rapid.SliceOfN(rapid.Byte(), 0, 80).Draw(t, "bytes")
+			}
+			p.Proof.Aunts = aunts
+			var added bool
+			var err error
+			pan := func() (r interface{}) {
+				defer func() { r = recover() }()
+				added, err = rcv.AddPart(p)
+				return nil
+			}()
+			vstat.Label("rootless_offer_" + kind)
+			if pan != nil {
+				vstat.Violation(t, P, "partset:rootless-header-panics", "AddPart panics under a header with root %x: %v", root, pan)
+				return
+			}
+			if added || rcv.Count() > 0 {
+				vstat.Violation(t, P, "partset:part-admitted-under-header-without-root", "a part (%s, index %d of %d, %d aunts) is admitted under a part-set header whose root hash is %x (%d bytes): err=%v", kind, idx, total, len(aunts), root, len(root), err)
+				return
+			}
+		}
+		vstat.NonTrivial(fmt.Sprintf("%d|%x|%d", total, root, n))
+	})
+}
